@@ -81,7 +81,7 @@ func RefineInvoke(input RefineInput) RefineOutput {
 	encoded, _ = encoder.EncodeUint(uint64(input.WorkItemIndex))
 	a = append(a, encoded...)
 	// w_s
-	encoded, _ = encoder.Encode(&workItem.CodeHash)
+	encoded, _ = encoder.EncodeUint(uint64(workItem.Service))
 	a = append(a, encoded...)
 	// |w_y| . w_y
 	encoded, _ = encoder.Encode(&workItem.Payload)
